@@ -28,9 +28,16 @@ Section CNOTDec.
             | Err e => Err e
             | Ok (t0x, t1x, t2x) =>
                 if nabs N (nmod N (t0x - t2x) (two * pi N)) <? atol N then
+                  let sh := nsin N (angle / two) in
+                  let sign :=
+                    ((- sh) * ax_x ax) * (ncos N (t1x / two) * ncos N t2x)
+                    + ncos N (angle / two) * nofZ N 0
+                    + ((- sh) * ax_z ax) * nsin N (t1x / two)
+                    + (sh * ax_y ax) * (ncos N (t1x / two) * nsin N t2x) in
+                  let cphase := if sign <? nofZ N 0 then phase - pi N / two else phase + pi N / two in
                   Ok (filter_identities N
                         [rz' tq t2x; ry tq (t1x / two); cn; ry tq ((- t1x) / two); rz' tq (- t2x);
-                         rz' c (phase - pi N / two)])
+                         rz' c cphase])
                 else
                   match aba_angles N AxZ AxY angle ax with
                   | Err e => Err e
